@@ -50,20 +50,40 @@ Theorem C14_rewrite_normalises_back : forall (nfkc : text -> text),
 Proof. exact rewrite_normalises_back. Qed.
 Print Assumptions C14_rewrite_normalises_back.
 
-(* every string-valued identifier field is free of keywords after the rewriting ... *)
-Theorem C14_str_fields_clean : forall (nfkc : text -> text),
+(* every identifier field -- a string, or a list of strings such as Global.names, Nonlocal.names,
+   MatchClass.kwd_attrs (fix 55f8aa9) -- is free of keywords after the rewriting, and the rewriting never fails *)
+Theorem C14_fields_clean : forall (nfkc : text -> text),
   (forall c r, is_lower c = true -> forallb is_ascii r = true -> nfkc (bold_of c :: r) = c :: r) ->
-  forall v f, rewrite_field (FStr v) = Some f -> field_has_keyword f = false.
-Proof. exact str_fields_clean. Qed.
-Print Assumptions C14_str_fields_clean.
+  forall f f', rewrite_field f = Some f' -> field_has_keyword f' = false.
+Proof. exact fields_clean. Qed.
+Print Assumptions C14_fields_clean.
 
-(* ... but the rewriting tests `type(v) is str`, so a field that holds a list of names (Global.names,
-   Nonlocal.names, MatchClass.kwd_attrs) keeps its keywords: (global if) unparses to `global if`, which
-   does not parse.  Witness replayed on the real code: finding C14-global-keyword-not-minced. *)
-Theorem C14_list_field_keyword_refuted :
-  exists f, rewrite_field f = Some f /\ field_has_keyword f = true.
-Proof. exact (ex_intro _ (FStrList [kw_if]) list_field_keyword_survives). Qed.
-Print Assumptions C14_list_field_keyword_refuted.
+Theorem C14_rewrite_field_total : forall (nfkc : text -> text),
+  (forall c r, is_lower c = true -> forallb is_ascii r = true -> nfkc (bold_of c :: r) = c :: r) ->
+  forall f, exists f', rewrite_field f = Some f'.
+Proof. exact rewrite_field_total. Qed.
+Print Assumptions C14_rewrite_field_total.
+
+(* (global if) is printed as `global (bold i)f` (the former refutation C14_list_field_keyword_refuted, fixed by 55f8aa9) *)
+Example C14_global_if_is_minced : rewrite_field (FStrList [kw_if]) = Some (FStrList [[119842; 102]%N]).
+Proof. exact global_if_is_minced. Qed.
+
+(* NegativeConstants (fix 4c5d6f5): no negative int/float Constant is left in what is printed ... *)
+Theorem C14_negconst_no_negative : forall e, no_negative (negconst e) = true.
+Proof. exact negconst_no_negative. Qed.
+Print Assumptions C14_negconst_no_negative.
+
+(* ... and the printed tree evaluates like the compiled one, for every evaluation in which -(+c) is the constant -c *)
+Theorem C14_negconst_preserves_value : forall (V : Type) (num : nkind -> bool -> N -> V) (leaf : V) (usub : V -> V)
+  (node : list V -> V), (forall k m, handled k = true -> usub (num k false m) = num k true m) ->
+  forall e, peval V num leaf usub node (negconst e) = peval V num leaf usub node e.
+Proof. exact negconst_preserves_value. Qed.
+Print Assumptions C14_negconst_preserves_value.
+
+(* complex constants are not among the handled kinds: a negative imaginary literal is printed as before *)
+Theorem C14_complex_constants_status :
+  neg_complex = true \/ negconst (PNum KComplex true 1) = PNum KComplex true 1.
+Proof. exact complex_constants_status. Qed.
 
 (* the hypothesis about NFKC is satisfiable *)
 Theorem C14_nfkc_fact_satisfiable : exists nfkc : text -> text,
